@@ -93,6 +93,8 @@ step_st = st.one_of(
     st.tuples(st.just("binary"), st.sampled_from(["subtract", "add", "multiply", "divide"]), st.sampled_from(["fwd", "rev"])).map(list),
     st.tuples(st.just("reduce_order"), st.sampled_from(["asc", "desc"])).map(list),
     st.tuples(st.just("stack"), st.sampled_from([0, 1, -1]), st.sampled_from(["default", "own_dict"])).map(list),
+    # one template Payload object owned by the "user", its static argument set in place before each use
+    st.tuples(st.just("mapt"), st.sampled_from(["i1", "i2", "s1", "t01", "l01"])).map(list),
 )
 
 
@@ -127,8 +129,12 @@ def name_cases(draw):
             s[1] = draw(st.sampled_from(["red", "red_other"]))
         elif s[0] == "stack":
             s[1] = draw(st.sampled_from([a for a in (0, 1, -1) if a != s[1]]))  # same operation, other static argument (axis)
+        elif s[0] == "mapt":
+            s[1] = draw(st.sampled_from([k for k in ("i1", "i2", "s1", "t01", "l01") if k != s[1]]))
     return {"kind": "names", "shape": shape, "p1": p1, "p2": p2, "union": draw(st.sampled_from(["from_actions", "add", "graph_add", "single"])),
-            "lambda_sources": draw(st.booleans())}
+            "lambda_sources": draw(st.booleans()),
+            # end both programs in a single node (reductions over every dimension): a union with exactly one sink
+            "collapse": draw(st.integers(0, 3)) == 0}
 
 
 @st.composite
@@ -162,7 +168,10 @@ def _gen(x):
     yield x + 1
 
 
-def _build_chain(shape, steps, lambda_sources=False, applied=None, caller_kw=None):
+_TEMPLATE = [None]
+
+
+def _build_chain(shape, steps, lambda_sources=False, applied=None, caller_kw=None, collapse=False):
     """applied (optional list) receives one bool per step: whether the step was applicable and applied. caller_kw: a dict the
     "user" created once and passes as backend_kwargs to every stack call of the case (steps of style own_dict)."""
     if applied is None:
@@ -182,6 +191,14 @@ def _build_chain(shape, steps, lambda_sources=False, applied=None, caller_kw=Non
             # sources return scalars: stacked along the only axis there is, whatever `axis` says (0 and -1 are the same place, 1
             # fails at run time) -- the graph, which is all this check looks at, records the requested axis as a static argument
             a = a.stack(d, axis=s[1]) if s[2] == "default" else a.stack(d, axis=s[1], backend_kwargs=caller_kw if caller_kw is not None else {})
+            applied[-1] = True
+            continue
+        if s[0] == "mapt":
+            tpl = _TEMPLATE[0]
+            if tpl is None:
+                tpl = _TEMPLATE[0] = fluent.Payload(POOL["g"], [fluent.Node.input_name(0), 0])
+            tpl.args[1] = STATIC[s[1]]  # the user edits the template in place, then uses it again
+            a = a.map(tpl)
             applied[-1] = True
             continue
         if s[0] == "binary":
@@ -216,6 +233,9 @@ def _build_chain(shape, steps, lambda_sources=False, applied=None, caller_kw=Non
                 continue
             a = a.reduce(POOL[s[1]], dim=d)
         applied[-1] = True
+    if collapse:
+        for d in list(a.nodes.dims):
+            a = a.reduce(POOL["red"], dim=str(d))
     return a
 
 
@@ -276,10 +296,12 @@ def run_names(c, stats: Stats | None) -> tuple[bool, list[str]]:
     caller_kw: dict = {}  # the user's own (empty) keyword dict, handed to every stack call of style own_dict
     ap1: list = []
     ap2: list = []
-    a1 = _build_chain(c["shape"], c["p1"], ls, ap1, caller_kw)
-    a2 = _build_chain(c["shape"], c["p2"], ls, ap2, caller_kw)
+    _TEMPLATE[0] = None  # one template Payload per case, shared by everything the case builds
+    col = bool(c.get("collapse"))
+    a1 = _build_chain(c["shape"], c["p1"], ls, ap1, caller_kw, col)
+    a2 = _build_chain(c["shape"], c["p2"], ls, ap2, caller_kw, col)
     # building the same program twice gives the same names
-    a1b = _build_chain(c["shape"], c["p1"], ls, None, caller_kw)
+    a1b = _build_chain(c["shape"], c["p1"], ls, None, caller_kw, col)
     n1 = [getattr(x, "name", None) if not hasattr(x, "parent") else (x.parent.name, x.name) for x in a1.nodes.values.flatten()]
     n1b = [getattr(x, "name", None) if not hasattr(x, "parent") else (x.parent.name, x.name) for x in a1b.nodes.values.flatten()]
     if n1 != n1b:
